@@ -196,3 +196,25 @@ pub fn zstd_decode(frame: &[u8], dict: Option<&[u8]>, cap: usize) -> Option<Vec<
     };
     r.ok().map(|_| out)
 }
+
+
+/// The repository's own decode corpus (frames made by zstd's `decodecorpus` tool, full of rare format
+/// features) as (name, frame, original).  Path relative to /verif (cwd of the checks).
+pub fn repo_corpus(max_frame: usize) -> Vec<(String, Vec<u8>, Vec<u8>)> {
+    let mut v = Vec::new();
+    let dir = "repo/ruzstd/decodecorpus_files";
+    if let Ok(rd) = std::fs::read_dir(dir) {
+        let mut names: Vec<String> = rd.filter_map(|e| e.ok()).map(|e| e.file_name().to_string_lossy().to_string()).filter(|n| n.ends_with(".zst")).collect();
+        names.sort();
+        for n in names {
+            let f = std::fs::read(format!("{}/{}", dir, n));
+            let o = std::fs::read(format!("{}/{}", dir, n.trim_end_matches(".zst")));
+            if let (Ok(f), Ok(o)) = (f, o) {
+                if f.len() <= max_frame {
+                    v.push((n, f, o));
+                }
+            }
+        }
+    }
+    v
+}
